@@ -330,10 +330,11 @@ func init() {
 				n = 800
 			}
 			runCases(c, theDriver, countRedefCases(r, n, "decode-failure-not-reported"))
+			reusedStreamer(c, r, tier, "C06")
 		}})
 	register(&Property{ID: "C07",
 		Rule:  "real Stream() attempts with server ids {0, 1, 65535, 65536, 2^31-1, 2^31, 2^32-1, random}, file names of 0..255 bytes incl. empty, path-like, dotted, blank, NUL, quoted, non-UTF-8 and random-byte names, offsets {4, 2^32-1, 2^31, random}, sequences of up to 4 attempts on one streamer, some refused before the dump, some ending only after the format description was received, the position moved by the caller between attempts; attempts that deliver some transactions and then fail in the handler, followed by an attempt that must ask for the end label of the last accepted transaction; the master decodes the COM_QUERY and COM_BINLOG_DUMP it received. Non-trivial: every scenario",
-		Extra: extraC07})
+		Extra: func(c *Collector, r *RNG, tier string) { extraC07(c, r, tier); reusedStreamer(c, r, tier, "C07") }})
 	register(&Property{ID: "C08",
 		Rule:  "real Stream() with handlers that (a) keep deep references and re-read every delivered transaction after the stream ended, (b) overwrite every delivered byte slice; histories with string/blob/bit/set values (sub-slices of the event buffer) and, for every formatted type, one value repeated in all rows (its zero or a non-zero one; all TIMESTAMP columns in the same second), the scribbling run first; packet sizes around the driver's buffer thresholds (4091..4097, 8187..8193, 262139..262145 byte payloads); master far ahead vs lock-step; plus readBinlogEvent over a scripted connection that reuses one buffer; multi-file histories (rotations, restarts) through parseEvents with every delivered transaction - positions included - rendered at delivery and again at the end. Non-trivial: every scenario",
 		Extra: extraC08})
